@@ -17,7 +17,7 @@ import (
 // hangTimeout is deliberately generous: an ordinary case takes well under a
 // millisecond, the largest bodies some tens of milliseconds.  Only a genuine
 // non-termination (or a >1000x slowdown) reaches it.
-const hangTimeout = 12 * time.Second
+const hangTimeout = 8 * time.Second
 
 const achPkg = "github.com/moov-io/ach"
 
